@@ -132,6 +132,8 @@ def cases(tier, seed):
         yield ("cfg", i, "source:" + ("dec", "bin", "HEX", "mixed")[i % 4])
         if i % 3 == 0:
             yield ("cfg", i, "source:guarded")
+        if i % 3 == 1:
+            yield ("cfg", i, "source:ident0")
 
 
 def describe(case, res):
